@@ -39,6 +39,8 @@ type FuzzCase struct {
 	Method  string              `json:"method,omitempty"`
 	Host    string              `json:"host,omitempty"`
 	Subs    []string            `json:"subs,omitempty"`
+	// ReadJSON: the frames are drained with ReadJSON.
+	ReadJSON bool `json:"read_json,omitempty"`
 }
 
 const c07AllocBase = 4 << 20
@@ -77,6 +79,7 @@ func checkC07(c FuzzCase, o *Obs) error {
 		return fmt.Errorf("%s: %d bytes allocated for an input of %d bytes", c.Entry, allocated, n)
 	}
 	o.Class("entry_" + c.Entry)
+	o.ClassIf(c.Entry == "frames" && c.ReadJSON, "frames_drained_with_ReadJSON")
 	if reached {
 		o.Class("reached_logic_" + c.Entry)
 		o.NonTrivial("")
@@ -123,6 +126,18 @@ func fuzzFrames(c FuzzCase) (bool, error) {
 	for i := 0; ; i++ {
 		if i > maxIter {
 			return true, fmt.Errorf("frames: %d NextReader calls succeeded on %d input bytes: the reader loops without consuming input", i, len(c.Data))
+		}
+		if c.ReadJSON {
+			// the application consumes the stream through ReadJSON: decoder
+			// errors (syntax, type) leave the connection usable, anything else
+			// ends the drain
+			var v interface{}
+			err := conn.ReadJSON(&v)
+			if err != nil && isConnLevelErr(err) {
+				break
+			}
+			accepted++
+			continue
 		}
 		if c.ReadMsg {
 			mt, p, err := conn.ReadMessage()
@@ -383,6 +398,14 @@ func mutateBytes(t *rapid.T, b []byte) []byte {
 	return out
 }
 
+// jsonishPool: message bodies for the ReadJSON drain - single values, values
+// followed by more values or by garbage, truncated and empty documents.
+var jsonishPool = []string{
+	`{"a":1}`, `[1,2,3]`, `"x"`, `7`, ` null `, `{"a":1} x`, `7q`, `{"a":1}{"b":2}`, `[1] [2] [3]`, `{"a":1},`, `1 2 3 oops`,
+	`{"a":`, `[`, `"unterminated`, ``, ` `, `}`, `]`, `{"a":1}]`, `nul`, `truefalse`, `{"k":"\u00zz"}`, `[1,]`, `{"a":1}` + "\x00", "\xff\xfe",
+	`{"deep":[[[[[[[[[[[[[[[[[[[[[[[[[[[[[[[[1]]]]]]]]]]]]]]]]]]]]]]]]]]]]]]]]}`, `123456789012345678901234567890e9999`, `"a" "b" c`,
+}
+
 // proxyRefusalSeen counts proxyreply cases with a complete refusal head.
 var proxyRefusalSeen int
 
@@ -454,7 +477,26 @@ func genFuzzCase(t *rapid.T) FuzzCase {
 			c.Limit = int64(rapid.IntRange(1, 300).Draw(t, "limit"))
 		}
 		c.ReadMsg = rapid.Bool().Draw(t, "readmsg")
-		switch rapid.IntRange(0, 5).Draw(t, "raw") {
+		c.ReadJSON = rapid.IntRange(0, 5).Draw(t, "readjson") == 0
+		rawKind := rapid.IntRange(0, 5).Draw(t, "raw")
+		if c.ReadJSON && rapid.IntRange(0, 2).Draw(t, "jsonstream") > 0 {
+			rawKind = 99
+		}
+		switch rawKind {
+		case 99:
+			// text messages holding JSON documents, well-formed or not
+			var st Stream
+			n := rapid.IntRange(1, 4).Draw(t, "njson")
+			for i := 0; i < n; i++ {
+				js := rapid.SampledFrom(jsonishPool).Draw(t, "jsonish")
+				m := SMsg{Op: wsref.OpText, Data: Payload{Len: len(js), Kind: "raw", Raw: []byte(js)}}
+				if rapid.Bool().Draw(t, "jfrag") {
+					m.Frags = []int{rapid.IntRange(0, len(js)).Draw(t, "jfragsz")}
+				}
+				m.Compressed = c.Compress && rapid.Bool().Draw(t, "jcomp")
+				st.Msgs = append(st.Msgs, m)
+			}
+			c.Data = BuildStream(st, c.Server, c.Compress).Wire
 		case 0:
 			c.Data = rapid.SliceOfN(rapid.Byte(), 0, 200).Draw(t, "rawbytes")
 		case 1:
